@@ -47,6 +47,7 @@ TABLE = [
     (r"^applytx::proof_is_tip910\|extern\|verify\|.*Tip910MelPowHash", "finding", "D10/D11"),
     (r"^applytx::validate_and_get_doscmint_speed\|assert\|Overflow\(Sub\)\|\$1\.height\.0,1", "inv", "the history lookup at the coin's height succeeded before, so height ≥ 1"),
     (r"^applytx::validate_and_get_doscmint_speed\|extern\|<melstructs::BlockHeight as std::ops::Sub>::sub\|\$1\.height,", "inv", "a coin is never newer than the state applying the batch (C02.R4: height = this.height)"),
+    (r"^applytx::(check_tx_validity|check_dosc_total_output)\|extern\|total_outputs\|", "totals-gate", "every batch member passed load_relevant_coins' output_totals_fit gate (checked sums of the outputs per denomination and of the fee) before anything calls total_outputs on it (C01.R9, re-evaluated here)"),
     (r"^applytx::validate_and_get_doscmint_speed\|unwrap\|(expect|unwrap)\|core::slice::<impl \[T\]>::get\(\$3\.inputs, 0\)", "inv", "runs after check_tx_validity accepted the tx: total_outputs always has a MEL entry, so balancing demands a MEL input (C01.R3 missing=>err)"),
     (r"^coins::CoinMapping::(coin_count|get_coin|remove_coin)\|unwrap\|unwrap\|stdcode::deserialize\(Tree::get\(\$1\.inner", "inv", "coin keys and count keys are domain-separated and written only by this module with stdcode of the matching type (C20.R1/R2)"),
     (r"^coins::CoinMapping::insert_coin\|assert\|Overflow\(Add\)\|CoinMapping::coin_count", "assume", "coin count < 2^64"),
@@ -169,6 +170,10 @@ def r1_inventory(ctx):
         elif verdict == "selected":
             ok = _selected_ok(prog, s)
             r.check(ok, "site/" + key[:150], "inv: " + why, "outputs[%s] in a pool worker is no longer protected by the selection's length test" % sig(s.operands[1]), s.where())
+        elif verdict == "totals-gate":
+            from rules.props import c01 as _c01
+            n0 = len([x for x in r.instances if x.verdict == "violation"]) if hasattr(r, "instances") else None
+            _c01.totals_gate(ctx, r, "site/" + key[:150])
         elif verdict == "guarded-swap":
             ok = _swap_guard_ok(s)
             r.check(ok, "site/" + key[:150], "inv: " + why, "swap_many can be reached with an empty side (division by zero in PoolState::swap_many)", s.where())
